@@ -60,6 +60,9 @@ type InstCfg struct {
 	// the leader flag is cleared) blocks until a release_gate step: a scheduler gate that lets a timer fire while
 	// Stop holds the election's lock.
 	GateStopMetric bool `json:"gate_stop_metric"`
+	// GateTransTo: the metrics callback counting the state transition to this state (it runs inside the critical section
+	// that publishes the transition) blocks until a release_gate step (the first such transition only).
+	GateTransTo string `json:"gate_trans_to"`
 	// PromotePanic: the OnPromote callback panics (after it was recorded). DemoteCallsStop: the OnDemote callback calls Stop().
 	PromotePanic    bool `json:"promote_panic"`
 	DemoteCallsStop bool `json:"demote_calls_stop"`
